@@ -12,7 +12,7 @@ by a copy of the helper's body with the actual arguments bound to the formals
 (AST level, depth <= 3).  `return` inside the helper becomes an assignment of
 the result plus `break` out of a one-trip `while True:` wrapper, which the
 statement CFG models exactly.  Helpers that cannot be inlined soundly
-(generators, `return` inside a loop of the helper, star-arguments, recursion)
+(generators, star-arguments, recursion)
 are left as opaque calls.
 """
 
@@ -102,7 +102,7 @@ class Flattener:
         self.repo = repo
         self.inlined: list[tuple[str, str]] = []
 
-    def inlinable_target(self, call: ast.Call, ctx_fi: FuncInfo, stack: tuple[str, ...]) -> FuncInfo | None:
+    def inlinable_target(self, call: ast.Call, ctx_fi: FuncInfo, stack: tuple[str, ...], gen: bool = False) -> FuncInfo | None:
         fn = call.func
         if any(isinstance(a, ast.Starred) for a in call.args) or any(k.arg is None for k in call.keywords):
             return None
@@ -126,15 +126,19 @@ class Flattener:
             return None
         if isinstance(t.node, ast.Lambda) or isinstance(t.node, ast.AsyncFunctionDef):
             return None
-        if any(isinstance(x, (ast.Yield, ast.YieldFrom, ast.Await)) for x in ast.walk(t.node)):
+        ys = [x for x in ast.walk(t.node) if isinstance(x, (ast.Yield, ast.YieldFrom, ast.Await))]
+        if gen:
+            # simple generators only: every yield is a statement of its own
+            stmts_y = [x.value for x in ast.walk(t.node) if isinstance(x, ast.Expr) and isinstance(x.value, ast.Yield)]
+            if not ys or len(stmts_y) != len(ys) or any(not isinstance(y, ast.Yield) or y.value is None for y in ys):
+                return None
+        elif ys:
             return None
         a = t.node.args
         if a.vararg or a.kwarg or a.posonlyargs and False:
             return None
         decos = {unparse(d) for d in t.node.decorator_list}
         if decos - {"staticmethod", "classmethod"}:
-            return None
-        if _has_return_in_loop(t.node.body):
             return None
         return t
 
@@ -202,11 +206,14 @@ class Flattener:
         return prologue, new_body
 
     def replace_returns(self, body: list[ast.stmt], make) -> tuple[list[ast.stmt], bool]:
-        """rewrite `return e` with make(e) + break; returns (body, needs_wrapper)"""
+        """rewrite `return e` with make(e) + break; returns (body, needs_wrapper).  A return inside a loop of the
+        helper sets a flag, breaks that loop, and the flag is tested right after the loop (`if flag: break`)."""
         needs = False
+        flag = f"returned_h{next(_counter)}"
+        used_flag = False
 
-        def rw(stmts: list[ast.stmt], top: bool) -> list[ast.stmt]:
-            nonlocal needs
+        def rw(stmts: list[ast.stmt], top: bool, in_loop: bool) -> list[ast.stmt]:
+            nonlocal needs, used_flag
             out = []
             for i, s in enumerate(stmts):
                 if isinstance(s, (ast.FunctionDef, ast.AsyncFunctionDef, ast.ClassDef)):
@@ -215,20 +222,35 @@ class Flattener:
                 if isinstance(s, ast.Return):
                     out.extend(make(s.value, s))
                     last_top = top and i == len(stmts) - 1
+                    if in_loop:
+                        used_flag = True
+                        out.append(ast.copy_location(ast.Assign(targets=[ast.Name(id=flag, ctx=ast.Store())], value=ast.Constant(value=True)), s))
                     if not last_top:
                         needs = True
                         out.append(ast.copy_location(ast.Break(), s))
                     continue
+                is_loop = isinstance(s, (ast.For, ast.While, ast.AsyncFor))
+                before = used_flag
+                if is_loop:
+                    used_flag = False
                 for name in ("body", "orelse", "finalbody"):
                     sub = getattr(s, name, None)
                     if isinstance(sub, list) and sub and isinstance(sub[0], ast.stmt):
-                        setattr(s, name, rw(sub, False))
+                        setattr(s, name, rw(sub, False, (in_loop or is_loop) if name == "body" else in_loop))
                 for h in getattr(s, "handlers", []) or []:
-                    h.body = rw(h.body, False)
+                    h.body = rw(h.body, False, in_loop)
                 out.append(s)
+                if is_loop:
+                    if used_flag:
+                        # a return happened inside this loop: leave the enclosing loop / the one-trip wrapper too
+                        needs = True
+                        out.append(ast.copy_location(ast.If(test=ast.Name(id=flag, ctx=ast.Load()), body=[ast.copy_location(ast.Break(), s)], orelse=[]), s))
+                    used_flag = used_flag or before
             return out
 
-        res = rw(body, True)
+        res = rw(body, True, False)
+        if used_flag:
+            res = [ast.Assign(targets=[ast.Name(id=flag, ctx=ast.Store())], value=ast.Constant(value=False), lineno=body[0].lineno if body else 0, col_offset=0)] + res
         return res, needs
 
     def expand_stmt(self, s: ast.stmt, ctx_fi: FuncInfo, caller_names: set[str], stack: tuple[str, ...], depth: int) -> list[ast.stmt] | None:
@@ -253,6 +275,41 @@ class Flattener:
             ast.fix_missing_locations(second)
             rep = self.expand_stmt(first, ctx_fi, caller_names | {tmp}, stack, depth)
             return (rep if rep is not None else [first]) + [second]
+        if isinstance(s, ast.For) and isinstance(s.iter, ast.Call) and not s.orelse \
+                and not any(isinstance(x, (ast.Break, ast.Continue, ast.Return, ast.Yield, ast.YieldFrom)) for b in s.body for x in ast.walk(b)):
+            t = self.inlinable_target(s.iter, ctx_fi, stack, gen=True)
+            if t is not None:
+                # for x in helper_generator(args): body   ==>   helper body with `yield v` replaced by `x = v; body`
+                bound = self.bind(s.iter, t, caller_names)
+                if bound is not None:
+                    prologue, body = bound
+                    loop_body, target = s.body, s.target
+
+                    class _Y(ast.NodeTransformer):
+                        def visit_Expr(self_, node):  # noqa: N805
+                            if isinstance(node.value, ast.Yield):
+                                v = node.value.value
+                                out = []
+                                if not (isinstance(target, ast.Name) and isinstance(v, ast.Name) and v.id == target.id):
+                                    out.append(ast.copy_location(ast.Assign(targets=[copy.deepcopy(target)], value=v), node))
+                                out.extend(copy.deepcopy(loop_body))
+                                return out
+                            return node
+
+                        def visit_FunctionDef(self_, node):  # noqa: N805
+                            return node
+                    body = [x for st_ in body for x in (lambda r: r if isinstance(r, list) else [r])(_Y().visit(st_))]
+                    body2, needs = self.replace_returns(body, lambda v, at: [])
+                    if needs:
+                        new = prologue + [ast.copy_location(ast.While(test=ast.Constant(value=True), body=body2 + [ast.copy_location(ast.Break(), s)], orelse=[]), s)]
+                    else:
+                        new = prologue + body2
+                    for x in new:
+                        ast.fix_missing_locations(x)
+                    self.inlined.append((ctx_fi.short, t.short))
+                    if depth > 1:
+                        new = self.flatten_block(new, ctx_fi, caller_names | _names_stored(new), stack + (t.qualname,), depth - 1, resolve_ctx=t)
+                    return new
         outer = s.value if isinstance(s, (ast.Expr, ast.Assign, ast.Return)) and isinstance(getattr(s, "value", None), ast.Call) else None
         if outer is not None and self.inlinable_target(outer, ctx_fi, stack) is None:
             # f(.., helper(..), ..)  ==>  arg = helper(..); f(.., arg, ..)   (only when everything evaluated before it is simple)
